@@ -43,7 +43,9 @@ func (opts *CompileOptions) Compile(source string) (string, error) {
 			scope[k] = v
 		}
 	}
+	verifPause(2)
 	for _, stmt := range stmts {
+		verifSite(100)
 		switch stmt := stmt.(type) {
 		case *parser.TabularExpr:
 			if expr != nil {
@@ -132,6 +134,8 @@ func splitQueries(dst []*subquery, source string, expr *parser.TabularExpr) ([]*
 	dstStart := len(dst)
 	var lastSubquery *subquery
 	for i := 0; i < len(expr.Operators); i++ {
+		verifSite(101)
+		verifState := verifSplit(lastSubquery, expr.Operators[i], len(dst))
 		switch op := expr.Operators[i].(type) {
 		case *parser.AsOperator:
 			var err error
@@ -251,6 +255,7 @@ func splitQueries(dst []*subquery, source string, expr *parser.TabularExpr) ([]*
 			lastSubquery.op = op
 			dst = append(dst, lastSubquery)
 		}
+		verifSplitDone(verifState, len(dst))
 	}
 
 	if len(dst) == dstStart {
@@ -270,6 +275,7 @@ func splitQueries(dst []*subquery, source string, expr *parser.TabularExpr) ([]*
 // that either reads from the previous subquery
 // or from the data source if there is no previous subquery.
 func chainSubquery(dst []*subquery, dstStart int, src parser.TabularDataSource) (*subquery, error) {
+	verifSite(102)
 	sub := &subquery{
 		name: subqueryName(len(dst)),
 	}
@@ -309,6 +315,7 @@ const (
 )
 
 func buildJoinCondition(conds []parser.Expr) parser.Expr {
+	verifSite(103)
 	if len(conds) == 0 {
 		return (&parser.Ident{Name: "true"}).AsQualified()
 	}
@@ -324,6 +331,7 @@ func buildJoinCondition(conds []parser.Expr) parser.Expr {
 }
 
 func rewriteSimpleJoinCondition(c parser.Expr) parser.Expr {
+	verifSite(104)
 	id, ok := c.(*parser.QualifiedIdent)
 	if !ok || len(id.Parts) != 1 || id.Parts[0].Quoted || builtinIdentifiers[id.Parts[0].Name] != "" {
 		return c
@@ -361,6 +369,7 @@ func hasJoinTerms(x parser.Expr) (left, right bool) {
 }
 
 func (sub *subquery) write(ctx *exprContext, sb *strings.Builder) error {
+	verifSite(105)
 	switch op := sub.op.(type) {
 	case nil, *parser.AsOperator:
 		sb.WriteString("SELECT * FROM ")
@@ -540,6 +549,7 @@ func dataSourceSQL(sb *strings.Builder, src parser.TabularDataSource) error {
 }
 
 func quoteIdentifier(sb *strings.Builder, name string) {
+	verifSite(119)
 	const quoteEscape = `""`
 	sb.Grow(len(name) + strings.Count(name, `"`)*(len(quoteEscape)-1) + len(`""`))
 
@@ -589,9 +599,11 @@ type exprContext struct {
 }
 
 func writeExpression(ctx *exprContext, sb *strings.Builder, x parser.Expr) error {
+	verifSite(106)
 	// Unwrap any parentheses.
 	// We manually insert parentheses as needed.
 	for {
+		verifSite(120)
 		p, ok := x.(*parser.ParenExpr)
 		if !ok {
 			break
@@ -794,7 +806,9 @@ func writeExpression(ctx *exprContext, sb *strings.Builder, x parser.Expr) error
 // writeExpressionMaybeParen writes an expression to sb,
 // surrounding it with parentheses if sufficiently complex.
 func writeExpressionMaybeParen(ctx *exprContext, sb *strings.Builder, x parser.Expr) error {
+	verifSite(107)
 	for {
+		verifSite(121)
 		p, ok := x.(*parser.ParenExpr)
 		if !ok {
 			break
@@ -833,6 +847,7 @@ var knownFunctions struct {
 
 func initKnownFunctions() map[string]*functionRewrite {
 	knownFunctions.init.Do(func() {
+		verifPause(1)
 		knownFunctions.m = map[string]*functionRewrite{
 			"count":     {write: writeCountFunction},
 			"countif":   {write: writeCountIfFunction},
@@ -851,6 +866,7 @@ func initKnownFunctions() map[string]*functionRewrite {
 }
 
 func writeNotFunction(ctx *exprContext, sb *strings.Builder, x *parser.CallExpr) error {
+	verifSite(108)
 	if len(x.Args) != 1 {
 		return &compileError{
 			source: ctx.source,
@@ -869,6 +885,7 @@ func writeNotFunction(ctx *exprContext, sb *strings.Builder, x *parser.CallExpr)
 }
 
 func writeNowFunction(ctx *exprContext, sb *strings.Builder, x *parser.CallExpr) error {
+	verifSite(109)
 	if len(x.Args) != 0 {
 		return &compileError{
 			source: ctx.source,
@@ -884,6 +901,7 @@ func writeNowFunction(ctx *exprContext, sb *strings.Builder, x *parser.CallExpr)
 }
 
 func writeIsNullFunction(ctx *exprContext, sb *strings.Builder, x *parser.CallExpr) error {
+	verifSite(110)
 	if len(x.Args) != 1 {
 		return &compileError{
 			source: ctx.source,
@@ -902,6 +920,7 @@ func writeIsNullFunction(ctx *exprContext, sb *strings.Builder, x *parser.CallEx
 }
 
 func writeIsNotNullFunction(ctx *exprContext, sb *strings.Builder, x *parser.CallExpr) error {
+	verifSite(111)
 	if len(x.Args) != 1 {
 		return &compileError{
 			source: ctx.source,
@@ -920,6 +939,7 @@ func writeIsNotNullFunction(ctx *exprContext, sb *strings.Builder, x *parser.Cal
 }
 
 func writeStrcatFunction(ctx *exprContext, sb *strings.Builder, x *parser.CallExpr) error {
+	verifSite(112)
 	if len(x.Args) == 0 {
 		return &compileError{
 			source: ctx.source,
@@ -943,6 +963,7 @@ func writeStrcatFunction(ctx *exprContext, sb *strings.Builder, x *parser.CallEx
 }
 
 func writeCountFunction(ctx *exprContext, sb *strings.Builder, x *parser.CallExpr) error {
+	verifSite(113)
 	if len(x.Args) != 0 {
 		return &compileError{
 			source: ctx.source,
@@ -958,6 +979,7 @@ func writeCountFunction(ctx *exprContext, sb *strings.Builder, x *parser.CallExp
 }
 
 func writeCountIfFunction(ctx *exprContext, sb *strings.Builder, x *parser.CallExpr) error {
+	verifSite(114)
 	if len(x.Args) != 1 {
 		return &compileError{
 			source: ctx.source,
@@ -977,6 +999,7 @@ func writeCountIfFunction(ctx *exprContext, sb *strings.Builder, x *parser.CallE
 }
 
 func writeIfFunction(ctx *exprContext, sb *strings.Builder, x *parser.CallExpr) error {
+	verifSite(115)
 	if len(x.Args) != 3 {
 		return &compileError{
 			source: ctx.source,
@@ -1004,6 +1027,7 @@ func writeIfFunction(ctx *exprContext, sb *strings.Builder, x *parser.CallExpr) 
 }
 
 func writeToLowerFunction(ctx *exprContext, sb *strings.Builder, x *parser.CallExpr) error {
+	verifSite(116)
 	if len(x.Args) != 1 {
 		return &compileError{
 			source: ctx.source,
@@ -1023,6 +1047,7 @@ func writeToLowerFunction(ctx *exprContext, sb *strings.Builder, x *parser.CallE
 }
 
 func writeToUpperFunction(ctx *exprContext, sb *strings.Builder, x *parser.CallExpr) error {
+	verifSite(117)
 	if len(x.Args) != 1 {
 		return &compileError{
 			source: ctx.source,
@@ -1042,6 +1067,7 @@ func writeToUpperFunction(ctx *exprContext, sb *strings.Builder, x *parser.CallE
 }
 
 func quoteSQLString(sb *strings.Builder, s string) {
+	verifSite(118)
 	sb.WriteString("'")
 	for _, b := range []byte(s) {
 		if b == '\'' {
